@@ -185,7 +185,7 @@ class StructCore(object):
                     data.append(getattr(self._v, f.name))
                 elif hasattr(f,'subnames'):
                     D = {}
-                    for x in self.subnames:
+                    for x in f.subnames:
                         D[x] = getattr(self._v,x)
                     data.append(D)
         parts = []
@@ -196,6 +196,8 @@ class StructCore(object):
                 pad = f.align(offset,psize) - offset
                 p = b"\0" * pad + p
             parts.append(p)
+            if self.union is False:
+                offset += len(p)
         if self.union is False:
             res = b"".join(parts)
             if not self.packed:
